@@ -196,7 +196,7 @@ TrView == /\ IsEvent("View")
 \* informative events and kill points without an abstract effect of their own
 Silent == {"TxAfterBegin", "TxAfterCommit", "SavepointEnd", "SkipDone", "ApplyDone", "ApplyQueued",
            "CommitStored", "CommitNotified", "BlCommitDone", "DoOffsetUpdated",
-           "BlRun", "Kill", "End", "CloseBegin", "Closed", "Torn", "ViewBusy", "EngineBusy"}
+           "BlRun", "Kill", "End", "CloseBegin", "Closed", "Torn", "ViewBusy", "EngineBusy", "BlRunErr"}
 TrSilent == /\ l <= Len(Trace) /\ Trace[l].ev \in Silent /\ l' = l + 1
             /\ UNCHANGED vars /\ Quiet
 
